@@ -26,6 +26,9 @@ def c12_jobs(tier):
     for r in ((1, 3) if q else (1, 2, 4, 7)):
         js.append(mjob('pmisbk-r%d' % r, 'c12', 'mpi-plain', r, ['--sub', 'pmis_bk'], timeout=2400))
     js.append(mjob('asan-pmisbk-r2', 'c12', 'mpi-asan', 2, ['--sub', 'pmis_bk', '--pmis_bk_cases=4'], timeout=3600))
+    # input class "more near-null-space vectors than the smallest aggregate has unknowns": own small ASan jobs (aborts on this tree: QR::R reads past its buffer)
+    for r in (1, 2):
+        js.append(mjob('asan-smallaggr-r%d' % r, 'c12', 'mpi-asan', r, ['--sub', 'pmis_small_aggr', '--small_cases=%d' % (3 if q else 8)], timeout=3600))
     for r in ((3, 7) if q else (1, 2, 4, 5, 8)):
         js.append(mjob('block-r%d' % r, 'c12b', 'mpi-plain', r, timeout=2400 if q else 5400, hang_is_violation=True))   # measured: 10 s idle, 240 s at load 70
     if q:
